@@ -73,6 +73,13 @@ def _install(ex, case):
                     ex.order_bad.append((round(now2, 4), "picked %s key=%s while eligible %s key=%s" % (r[0].path or r[1].path, key, e[0].path or e[1].path, k2)))
         if r is not None:
             ex.last_pick = (r._vserial, (r[0].changed, r[1].changed), r.priority, CLOCK.now)
+        else:
+            # nothing picked: then nothing may be eligible (an eligible entry hidden behind a younger one of better priority starves)
+            now2 = CLOCK.now
+            for e in st._changeset:
+                if (e[0].changed and e[0].changed <= now2 - age) or (e[1].changed and e[1].changed <= now2 - age) or e.priority < 0:
+                    ex.order_bad.append((round(now2, 4), "nothing picked although %s is eligible (priority %s, stamps %s/%s, ageing %s)" % (e[0].path or e[1].path, e.priority, e[0].changed, e[1].changed, age)))
+                    break
         if r is None and age == 0:
             late = [e for e, stamp, elig in cand if e in st._changeset and stamp and stamp <= CLOCK.now]
             if late:
